@@ -119,6 +119,12 @@ func (s *IntState) Next(req *Req) []*IntState {
 			e := s.clone()
 			e.exec()
 			out = append(out, e)
+			if op := s.Mem.Get(s.PC); (op == 0xdd || op == 0xfd) && s.Mem.Get(s.PC+1) == 0x00 {
+				e3 := s.clone()
+				e3.Last, e3.Consumed, e3.PushFree, e3.JustEI = KExec, false, false, false
+				e3.PC++
+				out = append(out, e3)
+			}
 			if s.Mem.Get(s.PC) == 0xed && s.Mem.Get(s.PC+1) == 0x4d && e.IFF1 != e.IFF2 {
 				e2 := e.clone()
 				e2.IFF1 = e2.IFF2
@@ -142,14 +148,19 @@ func (s *IntState) Next(req *Req) []*IntState {
 			n.Last = KAcceptIM0
 			n.PushFree = true
 			d := req.Data
+			// (bytes the device drives after the end of the supplied instruction are padding)
 			switch {
-			case len(d) == 1 && d[0]&0xc7 == 0xc7:
+			case len(d) >= 1 && d[0]&0xc7 == 0xc7:
 				n.SP -= 2
 				n.PC = uint16(d[0] & 0x38)
-			case len(d) == 3 && d[0] == 0xcd:
+			case len(d) >= 3 && d[0] == 0xcd:
 				n.SP -= 2
 				n.PC = uint16(d[2])<<8 | uint16(d[1])
-			case len(d) == 3 && d[0] == 0xc3:
+			case len(d) >= 1 && d[0] == 0xc9:
+				// RET supplied by the device: pops the return address from the stack in memory
+				n.PushFree = false
+				n.PC = n.pop()
+			case len(d) >= 3 && d[0] == 0xc3:
 				// JP nn supplied by the device: no push at all
 				n.PushFree = false
 				n.PC = uint16(d[2])<<8 | uint16(d[1])
@@ -164,6 +175,14 @@ func (s *IntState) Next(req *Req) []*IntState {
 	n := s.clone()
 	n.exec()
 	out := []*IntState{n}
+	if op := s.Mem.Get(s.PC); (op == 0xdd || op == 0xfd) && s.Mem.Get(s.PC+1) == 0x00 {
+		// a dangling index prefix in front of an opcode it does not modify: "consumed, execution continues with
+		// the next byte" - as one Step of two bytes, or the prefix alone with the NOP decoded by the next Step
+		m := s.clone()
+		m.Last, m.Consumed, m.PushFree, m.JustEI = KExec, false, false, false
+		m.PC++
+		out = append(out, m)
+	}
 	if s.Mem.Get(s.PC) == 0xed && s.Mem.Get(s.PC+1) == 0x4d && n.IFF1 != n.IFF2 {
 		// the statement says what RETN does to IFF1 and nothing about RETI; on silicon RETI copies IFF2
 		// as well: both are allowed
@@ -182,6 +201,8 @@ func (s *IntState) exec() {
 	switch {
 	case op == 0x00:
 		s.PC++
+	case (op == 0xdd || op == 0xfd) && s.Mem.Get(s.PC+1) == 0x00:
+		s.PC += 2
 	case op == 0xfb:
 		s.IFF1, s.IFF2 = true, true
 		ei = true
